@@ -5,6 +5,7 @@
     spliced with the annotations of the directive.
 See DESIGN.md 1.2 for the rewrite rules (D1.., R1..)."""
 import hashlib
+import json
 import os
 import re
 import sys
@@ -236,7 +237,7 @@ def _rule_r25(text, log, types):
     binary `* + -` is dereferenced: `name * x` -> `(*name) * x`.  For the Copy shim types named in the rule the
     reference and value operators of the dependency agree; Verus crashes on operators with reference operands."""
     m = rs.mask(text)
-    names = set(re.findall(r'\b([a-z_][a-z0-9_]*)\s*:\s*&\s*(?:%s)\b' % '|'.join(re.escape(t) for t in types), m))
+    names = set(re.findall(r'\b([A-Za-z_][A-Za-z0-9_]*)\s*:\s*&\s*(?:%s)\b' % '|'.join(re.escape(t) for t in types), m))
     if not names:
         return text
     n = 0
@@ -360,6 +361,33 @@ def _rule_r8(text, log):
     return ''.join(outp)
 
 
+def _replace_elem(body, x, repl):
+    """occurrences of the `&mut` element variable x: a UNARY `*x` and a bare `x` (auto-deref in `x[i]`, `x.f`) both
+    become the element expression; a binary `a * x[..]` keeps its operator"""
+    mb = rs.mask(body)
+    out, last = [], 0
+    for mm in re.finditer(r'\b%s\b' % re.escape(x), mb):
+        a = mm.start()
+        i = a - 1
+        while i >= 0 and mb[i] in ' \t\n':
+            i -= 1
+        start = a
+        if i >= 0 and mb[i] == '*':
+            k = i - 1
+            while k >= 0 and mb[k] in ' \t\n':
+                k -= 1
+            binary = k >= 0 and (mb[k].isalnum() or mb[k] in '_)]')
+            if not binary:
+                start = i
+        if i >= 0 and mb[i] == '.':
+            continue
+        out.append(body[last:start])
+        out.append(repl)
+        last = mm.end()
+    out.append(body[last:])
+    return ''.join(out)
+
+
 def _rule_r2_r3(text, log):
     """R2: `for v in ARRAY {` (array by value, upper-case const name) ->
            `for __i_v in 0..ARRAY.len() { let v = ARRAY[__i_v];`
@@ -404,7 +432,7 @@ def _rule_r2_r3(text, log):
         bc = rs.match_brace(m, bo)
         x, E = mm.group(1), mm.group(2)
         body = text[bo + 1:bc]
-        body = re.sub(r'\*\s*%s\b' % re.escape(x), '%s[__i_%s]' % (E, x), body)
+        body = _replace_elem(body, x, '%s[__i_%s]' % (E, x))
         text = text[:mm.start()] + 'for __i_%s in 0..%s.len() {' % (x, E) + body + text[bc:]
         n3 += 1
     if n2:
@@ -776,7 +804,7 @@ def _rule_r12(text, log):
     out = []
     last = 0
     n = 0
-    for mm in re.finditer(r'(?<![A-Za-z0-9_\]\)\.])(\*?[A-Za-z_][A-Za-z0-9_]*(?:\.[A-Za-z_0-9]+|\[[^\[\]]*(?:\[[^\]]*\][^\[\]]*)*\])*)\s*([-+*/])=(?!=)', m):
+    for mm in re.finditer(r'(?<![A-Za-z0-9_\]\)\.])(\*?[A-Za-z_][A-Za-z0-9_]*(?:\.[A-Za-z_0-9]+|\[[^\[\]]*(?:\[[^\]]*\][^\[\]]*)*\])*)\s*([-+*/%])=(?!=)', m):
         if mm.start() < last:
             continue
         # rhs runs to the ';' at depth 0
@@ -1057,7 +1085,7 @@ def _split_top(txt):
     return [x.strip() for x in parts]
 
 
-def inline_helper(text, src, name, log):
+def inline_helper(text, src, name, log, only_type=None):
     """rule IN: a call of a helper function that is NOT among the extracted items (typically one introduced by a
     refactoring) is replaced by the helper's body with the arguments bound to the parameters:
         recv.NAME(a, b)  ->  ({ let __in_recv = recv; let __in_0 = a; let __in_1 = b; let p: T = __in_0; let q: U = __in_1; BODY })
@@ -1090,7 +1118,7 @@ def inline_helper(text, src, name, log):
         pm = re.fullmatch(r'(mut\s+)?([a-z_][a-z0-9_]*)\s*:\s*(.+)', prm, re.S)
         if not pm:
             return text, 0
-        plist.append((pm.group(1) or '', pm.group(2), pm.group(3).strip()))
+        plist.append((pm.group(1) or '', pm.group(2), re.sub(r"&\s*'[a-z_]+\s+", '&', pm.group(3).strip())))
     # type of the enclosing impl (for `Self::`)
     ty = None
     for im in re.finditer(r'\bimpl\b[^{;]*\{', m):
@@ -1098,6 +1126,8 @@ def inline_helper(text, src, name, log):
         if im.end() <= dm.start() < ic:
             hm = re.search(r'(?:for\s+)?([A-Z][A-Za-z0-9_]*)\s*(?:<[^>]*>)?\s*\{$', src[im.start():im.end()].strip())
             ty = hm.group(1) if hm else None
+    if only_type and ty != only_type:
+        return text, 0
     if has_self:
         mbody = rs.mask(body)
         out, last = [], 0
@@ -1146,6 +1176,122 @@ def inline_helper(text, src, name, log):
     if n:
         log.append(('IN:%s' % name, n))
     return text, n
+
+
+# --------------------------------------------------------------------------- rename adaptation (rule RN)
+_BINDER_RES = [
+    r'\blet\s+(?:mut\s+)?([a-z_][A-Za-z0-9_]*)\b(?!\s*::)',
+    r'\bfor\s+([a-z_][A-Za-z0-9_]*)\s+in\b',
+]
+
+
+def binders(text):
+    """ordered list of the names a function binds: parameters (nested fns included), `let` / `for` variables,
+    tuple patterns of lets and fors, closure parameters, `Some(x)` / `Ok(x)` / `Err(x)` patterns."""
+    m = rs.mask(text)
+    found = []
+    # parameters of every fn in the text
+    for fm in re.finditer(r'\bfn\s+[A-Za-z_][A-Za-z0-9_]*\s*(?:<[^()]*>)?\s*\(', m):
+        pc = rs.match_brace(m, fm.end() - 1)
+        for prm in _split_top(text[fm.end():pc]):
+            pm = re.match(r'(?:mut\s+)?([a-z_][A-Za-z0-9_]*)\s*:', prm)
+            if pm:
+                found.append((fm.end() + text[fm.end():pc].find(prm), pm.group(1)))
+    for rx in _BINDER_RES:
+        for mm in re.finditer(rx, m):
+            found.append((mm.start(1), mm.group(1)))
+    # tuple patterns: let (a, b) / for (a, b) in / |a, b| / |(a, b)|
+    for mm in re.finditer(r'\b(?:let|for)\s*\(([^()=]*(?:\([^()]*\))?[^()=]*)\)\s*(?:=|in\b|:)', m):
+        for nm in re.finditer(r'\b(?:mut\s+)?([a-z_][A-Za-z0-9_]*)\b', mm.group(1)):
+            if nm.group(1) != 'mut':
+                found.append((mm.start(1) + nm.start(1), nm.group(1)))
+    for mm in re.finditer(r'(?<![|&])\|([^|{}();]*)\|(?!\|)', m):
+        for nm in re.finditer(r'(?:^|[,(&\s])(?:mut\s+)?([a-z_][A-Za-z0-9_]*)\s*(?=[,):]|$)', mm.group(1)):
+            found.append((mm.start(1) + nm.start(1), nm.group(1)))
+    for mm in re.finditer(r'\b(?:Some|Ok|Err|Reached|Advanced)\(\s*(?:ref\s+|mut\s+)?([a-z_][A-Za-z0-9_]*)\s*\)', m):
+        found.append((mm.start(1), mm.group(1)))
+    found.sort()
+    out, seen = [], set()
+    for pos, nm in found:
+        if (pos, nm) in seen or nm in ('self', 'mut', '_'):
+            continue
+        seen.add((pos, nm))
+        out.append(nm)
+    return out
+
+
+def binders_scoped(text):
+    """{'': binders of the function itself, '<nested fn name>': binders of each fn nested in its body}"""
+    m = rs.mask(text)
+    first = re.search(r'\bfn\s+[A-Za-z_][A-Za-z0-9_]*', m)
+    res = {}
+    blanked = text
+    if first:
+        bo = m.find('{', first.end())
+        if bo >= 0:
+            for fm in re.finditer(r'\bfn\s+([A-Za-z_][A-Za-z0-9_]*)', m[bo:]):
+                st = bo + fm.start()
+                ob = m.find('{', st)
+                if ob < 0:
+                    continue
+                cb = rs.match_brace(m, ob)
+                res[fm.group(1)] = binders(text[st:cb + 1])
+                blanked = blanked[:st] + ' ' * (cb + 1 - st) + blanked[cb + 1:]
+    res[''] = binders(blanked)
+    # number of leading entries that are parameters of the function itself
+    np_ = 0
+    if first:
+        po = m.find('(', first.end())
+        if po >= 0:
+            pc = rs.match_brace(m, po)
+            for prm in _split_top(text[po + 1:pc]):
+                if re.match(r'(?:mut\s+)?([a-z_][A-Za-z0-9_]*)\s*:', prm):
+                    np_ += 1
+    res['#params'] = np_
+    return res
+
+
+def rename_map(old, cur):
+    """positional comparison of two binder lists; a consistent one-to-one renaming or None"""
+    if not old or len(old) != len(cur) or old == cur:
+        return None
+    # names that disappeared are matched, in order, with the names that appeared (robust against reordered statements)
+    so, sc = set(old), set(cur)
+    removed = [n for i, n in enumerate(old) if n not in sc and n not in old[:i]]
+    added = [n for i, n in enumerate(cur) if n not in so and n not in cur[:i]]
+    if removed and len(removed) == len(added):
+        from collections import Counter
+        mp0 = dict(zip(removed, added))
+        if Counter(mp0.get(n, n) for n in old) == Counter(cur):
+            return mp0
+    mp = {}
+    for a, b in zip(old, cur):
+        if a == b:
+            continue
+        if mp.get(a, b) != b:
+            return None
+        mp[a] = b
+    if not mp:
+        return None
+    # a new name must not capture a name that is still in use unchanged
+    still = set(a for a, b in zip(old, cur) if a == b)
+    if any(b in still and mp.get(b) is None for b in mp.values()):
+        return None
+    if len(set(mp.values())) != len(mp):
+        return None
+    return mp
+
+
+def apply_rename(obj, mp):
+    """rename code identifiers inside annotation payloads (strings, nested containers)"""
+    if isinstance(obj, str):
+        rx = re.compile(r'(?<![A-Za-z0-9_.])(%s)\b(?!\s*\()' % '|'.join(re.escape(k) for k in sorted(mp, key=len, reverse=True)))
+        return rx.sub(lambda mm: mp[mm.group(1)], obj)
+    if isinstance(obj, dict):
+        return {k: apply_rename(v, mp) for k, v in obj.items()}
+    if isinstance(obj, (list, tuple)):
+        return type(obj)(apply_rename(v, mp) for v in obj)
+    return obj
 
 
 class Region:
@@ -1363,6 +1509,8 @@ def generate(unit_path, repo=REPO, inline=()):
             emit('\n'.join(hand), 'hand', None, cur_props)
             hand = []
 
+    names_path = unit_path[:-3] + '.names.json'
+    names_db = json.load(open(names_path)) if os.path.exists(names_path) else {}
     lit_sources = []
     const_axioms = []
     const_facts = {}
@@ -1485,6 +1633,50 @@ def generate(unit_path, repo=REPO, inline=()):
                     continue
                 it, parents = rs.find_item(src, ipath)
                 raw = src[it['start']:it['end']]
+                # rule RN: the annotations name parameters and locals of the function as it was when they were written
+                # (units/<unit>.names.json); a pure renaming in /repo is followed positionally
+                rn_map = None
+                if it['kind'] == 'fn' and names_db.get(ipath) and kind in ('verbatim', 'contract'):
+                    cur_b = binders_scoped(raw)
+                    old_b = names_db[ipath]
+                    if isinstance(old_b, dict):
+                        mp = rename_map(old_b.get('', []), cur_b.get('', []))
+                        mp_spec = None
+                        if mp is None and old_b.get('#params') == cur_b.get('#params') and len(old_b.get('', [])) == len(cur_b.get('', [])):
+                            # a parameter shadowed by a local of the same name: contract clauses see the parameter,
+                            # everything spliced into the body sees the local
+                            k_ = old_b.get('#params') or 0
+                            mp_spec = rename_map(old_b[''][:k_], cur_b[''][:k_]) or {}
+                            mp = rename_map(old_b[''][k_:], cur_b[''][k_:]) or {}
+                            for a_, b_ in mp_spec.items():
+                                mp.setdefault(a_, b_)
+                            if not mp and not mp_spec:
+                                mp = None
+                        nested_ann = ann.get('nested') or {}
+                        new_nested = {}
+                        nested_names = [k for k in old_b if k and not k.startswith('#')]
+                        cur_nested = [k for k in cur_b if k and not k.startswith('#')]
+                        renamed = []
+                        for nn, nann in nested_ann.items():
+                            mpn = rename_map(old_b.get(nn, []), cur_b.get(nn, [])) if nn in cur_b else None
+                            if mpn:
+                                nann = apply_rename(nann, mpn)
+                                renamed.append('%s{%s}' % (nn, ','.join('%s->%s' % kv for kv in sorted(mpn.items()))))
+                            new_nested[nn] = nann
+                        if mp:
+                            rn_map = mp
+                            early = {k_: ann.get(k_) for k_ in ('spec', 'start')}
+                            ann = apply_rename({k: v for k, v in ann.items() if k != 'nested'}, mp)
+                            if mp_spec is not None:
+                                for k_, v_ in early.items():
+                                    if v_ is not None:
+                                        ann[k_] = apply_rename(v_, mp_spec) if mp_spec else v_
+                            renamed.insert(0, ','.join('%s->%s' % kv for kv in sorted(mp.items())))
+                        if mp or renamed:
+                            ann = dict(ann)
+                            ann['nested'] = new_nested
+                            top_ann = ann
+                            log.append(('RN:' + ';'.join(renamed), max(1, len(renamed))))
                 if kind == 'r1':
                     txt = _strip_docs_attrs(raw, log)
                     gen, cname, cfact = const_r1(txt)
@@ -1507,19 +1699,24 @@ def generate(unit_path, repo=REPO, inline=()):
                 else:
                     raw_in = raw
                     if it['kind'] == 'fn' and it['body_open'] is not None:
-                        for hn in inline:
+                        for hn_full in inline:
+                            hn_ty, hn = (hn_full.split('::', 1) + [None])[:2] if '::' in hn_full else (None, hn_full)
                             if re.search(r'\b%s\s*\(' % re.escape(hn), rs.mask(raw_in)) and not re.search(r'\bfn\s+%s\b' % re.escape(hn), rs.mask(raw_in)[:rs.mask(raw_in).find('{')]):
-                                raw_in, _n = inline_helper(raw_in, src, hn, log)
+                                raw_in, _n = inline_helper(raw_in, src, hn, log, hn_ty)
                                 if not _n:
                                     # the helper may live in another file of the crate
                                     import glob as _glob
                                     for of in sorted(_glob.glob(os.path.join(repo, 'src', '**', '*.rs'), recursive=True)):
                                         if of == fpath:
                                             continue
-                                        raw_in, _n = inline_helper(raw_in, open(of).read(), hn, log)
+                                        raw_in, _n = inline_helper(raw_in, open(of).read(), hn, log, hn_ty)
                                         if _n:
                                             break
-                    text = apply_rewrites(raw_in, log, header['rules'], keep_eq=bool(opts.get('eq')))
+                    rules_item = header['rules']
+                    if rn_map:
+                        # the unit's literal substitutions name locals too: follow the renaming
+                        rules_item = [apply_rename(r_, rn_map) if r_.startswith(('S:', 'SW:')) else r_ for r_ in rules_item]
+                    text = apply_rewrites(raw_in, log, rules_item, keep_eq=bool(opts.get('eq')))
                     if it['kind'] == 'fn' and it['body_open'] is not None:
                         text = splice_fn(text, ann, log)
                     lit_sources.append(text)
